@@ -46,7 +46,12 @@ def is_effect(e):
 
 
 def guards_of(func, blocks, b, skip_loops=True):
-    """Rendered guard context of block b inside a region: [(cond string, side)]."""
+    """Rendered guard context of block b inside a region: ['cond' or '!cond']."""
+    return [('%s%s' % ('' if side else '!', show(ce, 300))) for ce, side in guard_trees(func, blocks, b, skip_loops)]
+
+
+def guard_trees(func, blocks, b, skip_loops=True):
+    """Guard context of block b inside a region as [(atom tree, truth)] (negations stripped)."""
     out = []
     doms = func.dominators().get(b, set())
     for d in sorted(doms & blocks, reverse=True):
@@ -76,7 +81,7 @@ def guards_of(func, blocks, b, skip_loops=True):
         for atom, tv in implied_atoms(c, in0):
             ce, pol = strip_not(atom)
             side = (tv == pol)
-            out.append(('%s%s' % ('' if side else '!', show(ce, 300))))
+            out.append((ce, side))
     return out
 
 
